@@ -28,7 +28,8 @@ TRUSTED = [
     'postCall (an eval() of the dotted name in the caller\'s scope) is an oracle argument of the model',
     'REFERENCE SEMANTICS, hand-written: Model/C04Eval.v (integers, strings, tuples), validated against CPython on typed random trees on every run',
     'search oracles: eval(compile(tree)) vs eval(compile(ast2src(tree))) over recording values (tools/c04_eval.py); the marking property checked on the real PreTranslator; real '
-    'extract_vars keys / values over integer scopes with closure cells; end-to-end route on in-memory SQLite (string and generator queries, the decompiler factored out)',
+    'extract_vars keys / values over integer scopes with closure cells; end-to-end route on in-memory SQLite (string and generator queries, the decompiler factored out); '
+    'repeated execution of the same query code with changing outer values (warm translator cache) against a cold execution of the same query',
 ]
 ASSUMPTIONS = [
     'trees are those ast.parse produces for the supported node kinds (36 kinds incl. conditional, lambda with positional parameters, calls with */** and keywords, '
@@ -711,6 +712,16 @@ def search(ctx, deep):
         if f == 'skip': dist['extract_vars_skipped'] += 1
         elif f is None: nontriv.add('xv' + G.tree_json(t))
         else: record([f])
+    # (g) the same query code executed repeatedly (warm translator cache) with changing outer values: each call must send the value of THAT call
+    dist.update({'repeat_route': 0, 'repeat_calls': 0, 'repeat_skipped': 0})
+    for template in sorted(E.REPEAT_TEMPLATES):
+        for expr in (E.REPEAT_EXPRS if deep else ctx.rng.sample(E.REPEAT_EXPRS, 3)):
+            calls = [(ctx.rng.randint(-3, 3), ctx.rng.randint(0, 2)) for _ in range(6 if deep else 4)]
+            evals += 1; dist['repeat_route'] += 1; dist['repeat_calls'] += len(calls)
+            f = repeat_failure(template, expr, calls)
+            if f == 'skip': dist['repeat_skipped'] += 1
+            elif f is None: nontriv.add('rp%s|%s' % (template, expr))
+            else: record([f])
     return Search(evaluations=evals, failures=failures, nontrivial=len(nontriv), distribution=dist, exhaustive=False,
                   samples=[{'query': "select(p for p in P if p.x == ((a + b).bit_length()))", 'scope': E.INT_SCOPE}])
 
@@ -753,6 +764,18 @@ def extract_failure(t, filter_num, cells, i=0):
         if res['exc'] in ('ExprEvalError', 'TypeError', 'NotImplementedError'): return 'skip'
     return Failure('unexplained:extract_vars:%s' % res['kind'], 'extract_vars: `%s` (filter_num %d, cells %s): %s' % (ast.unparse(G.to_ast(t)), filter_num, cells, json.dumps(res)[:200]),
                    {'extract_tree': t, 'filter_num': filter_num, 'cells': cells})
+
+
+def repeat_failure(template, expr, calls):
+    import c04_eval as E
+    res = E.repeat_check(template, expr, [tuple(c) for c in calls])
+    if res is None: return None
+    if 'skip' in res: return 'skip'
+    return Failure('repeated-execution:%s' % template,
+                   'repeated execution: `%s` with E = `%s`: the call with (a, b) = %s returns %s after the calls %s with the same code object; a fresh execution of the same '
+                   'query with these values returns %s (the outer-scope value of an earlier call was sent)' % (
+                       res['src'].strip().split('return ')[1], expr, tuple(res['at']), res['warm'], res['history'][:-1], res['cold']),
+                   {'repeat': template, 'expr': expr, 'calls': res['calls']})
 
 
 def _short(res):
@@ -812,6 +835,9 @@ def replay(ctx, data):
     import c04_eval as E
     if 'generator_text' in data:
         return generator_case(data['generator_text'])
+    if 'repeat' in data:
+        f = repeat_failure(data['repeat'], data['expr'], data['calls'])
+        return None if f == 'skip' else f
     if 'marking_tree' in data:
         return marking_failure(G.tree_from_json(data['marking_tree']))
     if 'extract_tree' in data:
